@@ -108,7 +108,7 @@ fn gen_layout_value(rng: &mut Rng) -> RVal {
 			0 => RVal::Null,
 			1 => RVal::Bool(rng.chance(1, 2)),
 			2..=4 => RVal::Num(format!("{}", rng.below(100000))),
-			5 => RVal::Str(['\u{e9}', '"', '\n', '\u{1}', '\u{b}', 'a', '\u{1f600}', '\\'].iter().filter(|_| rng.chance(1, 2)).collect()),
+			5 => RVal::Str(['\u{e9}', '"', '\n', '\u{1}', '\u{b}', 'a', '\u{1f600}', '\\', '\u{7f}', '\u{80}', '\u{9f}', '/'].iter().filter(|_| rng.chance(1, 2)).collect()),
 			6..=7 => RVal::Str((0..rng.below(12)).map(|_| (b'a' + rng.below(26) as u8) as char).collect()),
 			8..=9 => RVal::Arr(vec![]),
 			_ => RVal::Obj(vec![]),
@@ -150,6 +150,14 @@ fn c08_one(rep: &mut Report, fam: &str, r: &RVal) {
 	let mut want = String::new();
 	pr::compact(r, &mut want);
 	let v = from_rval(r);
+	// compact output must not depend on what was printed before on this thread
+	if rep.evaluations % 3 == 0 {
+		let _ = guard(|| v.pretty_print().to_string());
+		let mut o = json_syntax::print::Options::pretty();
+		o.array_limit = Some(json_syntax::print::Limit::Always);
+		o.object_limit = Some(json_syntax::print::Limit::Item(0));
+		let _ = guard(|| v.print_with(o).to_string());
+	}
 	let forms: [(&str, Result<String, String>); 4] = [
 		("compact_print().to_string()", guard(|| v.compact_print().to_string())),
 		("to_string()", guard(|| v.to_string())),
@@ -218,6 +226,29 @@ pub fn run_c08(cfg: &Config) -> i32 {
 			});
 		}
 		rep.count("class_strings_swept", n);
+		rep.distinct_by_construction(n);
+		rep
+	});
+	total.merge(rep);
+	// long strings: an escape / multi-byte character at every offset up to the bound, and long plain runs after an escape
+	let max_long = if thorough { 2100 } else { 1100 };
+	let rep = parallel(cfg.threads, 16, |sh| {
+		let mut rep = Report::new();
+		let mut n = 0u64;
+		let specials: [&str; 6] = ["\u{1}", "\"", "\n", "\u{e9}", "\u{1f600}", "\u{1f}\u{0}"];
+		let mut l = sh;
+		while l <= max_long {
+			for sp in specials {
+				let head: String = "a".repeat(l);
+				for s in [format!("{}{}b", head, sp), format!("{}{}", sp, head), format!("x{}{}{}", sp, head, sp)] {
+					c08_one(&mut rep, "long-strings", &RVal::Arr(vec![RVal::Str(s.clone()), RVal::Obj(vec![(s, RVal::Num("1".into()))])]));
+					n += 1;
+				}
+			}
+			l += 16;
+		}
+		rep.count("long_strings_swept", n);
+		rep.max("longest_string_chars", max_long as u64);
 		rep.distinct_by_construction(n);
 		rep
 	});
@@ -432,6 +463,68 @@ fn run_print(cfg: &Config, id: &'static str) -> i32 {
 			}
 		}
 		mon.rep.count("family:random-pairs", mon.rep.evaluations);
+		mon.rep
+	});
+	total.merge(rep);
+
+	// (d) long strings (escape at every offset), deep nesting with every indent unit, large spacing values
+	let rep = parallel(cfg.threads, 16, |sh| {
+		let mut mon = PrintMon {
+			rep: Report::new(),
+			reader: Reader::new(),
+			c04,
+			c13: !c04,
+		};
+		let mut rng = Rng::new(seed).fork(0x9a4 + sh as u64);
+		// long strings
+		let mut l = sh;
+		while l <= 600 {
+			for sp in ["\u{1}", "\"", "\u{e9}", "\u{1f600}"] {
+				let s = format!("{}{}{}", "a".repeat(l), sp, "b".repeat(l % 7));
+				let r = RVal::Obj(vec![(s.clone(), RVal::Arr(vec![RVal::Str(s), RVal::Null]))]);
+				let v = from_rval(&r);
+				for o in [POpts::pretty(), POpts::compact(), random_record(&mut rng, &r)] {
+					mon.one("long-strings", &r, &v, &o);
+					mon.rep.distinct_by_construction(1);
+				}
+			}
+			l += 16;
+		}
+		// deep nesting: depth up to 80, expanded at every level
+		for depth in (sh + 1..=80).step_by(16) {
+			let mut r = if depth % 2 == 0 { RVal::Num("1".into()) } else { RVal::Arr(vec![]) };
+			for d in 0..depth {
+				r = if (d + sh) % 3 == 0 { RVal::Obj(vec![("k".into(), r), ("l".into(), RVal::Null)]) } else { RVal::Arr(vec![RVal::Bool(true), r]) };
+			}
+			let v = from_rval(&r);
+			for indent in [PIndent::Tabs(1), PIndent::Tabs(2), PIndent::Spaces(1), PIndent::Spaces(4), PIndent::Spaces(0)] {
+				for lim in [Some(PLimit::Always), Some(PLimit::Item(0)), Some(PLimit::Width(3)), None] {
+					let mut o = POpts::pretty();
+					o.indent = indent;
+					o.array_limit = lim;
+					o.object_limit = lim;
+					mon.one("deep-nesting", &r, &v, &o);
+					mon.rep.distinct_by_construction(1);
+				}
+			}
+			mon.rep.max("deepest_printed_nesting", depth as u64);
+		}
+		// large spacing values in every field, one at a time and together
+		for big in [31usize, 32, 33, 64, 100, 255, 256] {
+			for f in 0..pr::N_FIELDS {
+				let r = gen_layout_value(&mut rng);
+				let v = from_rval(&r);
+				let mut o = if f % 2 == 0 { POpts::pretty() } else { POpts::inline() };
+				*o.field_mut(f) = big;
+				if sh % 2 == 0 {
+					o.array_limit = Some(PLimit::Width(big + rng.below(40)));
+					o.object_limit = Some(PLimit::ItemOrWidth(3, big + rng.below(40)));
+				}
+				mon.one("large-spacing", &r, &v, &o);
+				mon.rep.distinct_by_construction(1);
+			}
+		}
+		mon.rep.count("family:long-strings/deep-nesting/large-spacing", mon.rep.evaluations);
 		mon.rep
 	});
 	total.merge(rep);
